@@ -617,7 +617,15 @@ func (w *world) apply(ai int, a Action, st *streamModel) *pbt.Violation {
 			}
 			w.disablePull(st)
 		default:
-			if err := pp.conn.AcceptPlay(); err != nil {
+			if st.in != nil || !pp.enabled {
+				// this attempt must not attach: the origin answers play and sends its first (marked) media in one
+				// write; none of it may be forwarded, whatever the pull session has already read
+				pbt.Count("pull-refused-with-media-behind-play-answer", 1)
+				if err := acceptPlayWithMedia(pp.conn); err != nil {
+					lalclient.Harness("stub play answer with media: %v", err)
+				}
+				defer w.graceForBad(st)
+			} else if err := pp.conn.AcceptPlay(); err != nil {
 				lalclient.Harness("stub AcceptPlay: %v", err)
 			}
 			if st.in == nil && !pp.enabled {
